@@ -1419,6 +1419,8 @@ pub fn collect<'tcx>(tcx: TyCtxt<'tcx>, argv: &[String]) -> J {
             b.put("inputs", J::A(ins));
             b.put("output", cx.ty_id(sig.output()));
             b.put("const_fn", J::B(tcx.is_const_fn(def)));
+            // reachable from outside the crate (directly, through re-exports, or as a method of a reachable type/trait)
+            b.put("reachable", J::B(tcx.effective_visibilities(()).is_reachable(id)));
             b.put("name", jstr(tcx.item_name(def).to_string()));
             if let Some(imp) = tcx.impl_of_assoc(def) {
                 b.put("impl", jstr(cx.path(imp)));
